@@ -9,6 +9,7 @@ import copy
 from .. import core, harness, vloop
 
 PROP = 'C02'
+TECHNIQUE = ('runtime monitoring: trace property over the recorded history of output assignments, filter calls and deliveries (exactly-once, order, chaining previous/value, synchronous delivery)')
 LEVEL = 'exploration'
 RULE = ("case = (sender kind: Src probe / Input / Counter / FuncBlock identity / Not; sequence of "
         "1..40 assigned values from a 14-value alphabet with equal-but-not-identical neighbours; "
@@ -81,7 +82,7 @@ def gen(ctx):
     rng = ctx.rng('gen')
     n = 350 if ctx.tier == 'quick' else 70000
     for _ in range(n):
-        sender = rng.choice(['src', 'src', 'input', 'counter', 'func', 'not'])
+        sender = rng.choice(['src', 'src', 'input', 'counter', 'func', 'not', 'inputexp'])
         alphabet = range(len(NUMERIC)) if sender == 'counter' else range(len(VALUES))
         length = rng.choice([1, 2, 3, 5, 8, 13, 20, 40])
         vals = []
@@ -101,7 +102,7 @@ def gen(ctx):
                      'filters': [rng.choice(FKINDS) for _ in range(rng.choice([0, 0, 1, 2]))]}
                     for _ in range(k)]
         case = {'sender': sender, 'values': vals, 'on_output': evlist(),
-                'on_every': evlist() if sender in ('src', 'input', 'counter') else [],
+                'on_every': evlist() if sender in ('src', 'input', 'counter', 'inputexp') else [],
                 'form': [rng.choice(FORMS), rng.choice(FORMS)],
                 'initdef': rng.random() < 0.5}
         if sender == 'src' and rng.random() < 0.4:
@@ -191,6 +192,11 @@ def build_and_run(case, ctx):
         elif kind == 'counter':
             s = edzed.Counter('snd', initdef=first, on_output=oo, on_every_output=oe)
             feeder = s
+        elif kind == 'inputexp':
+            # an FSM-based sender: every accepted 'put' re-assigns the output
+            s = edzed.InputExp('snd', duration=10 ** 7, initdef=first, expired='EXPIRED',
+                               on_output=oo, on_every_output=oe)
+            feeder = s
         else:
             feeder = Src('feed', x_init=first, initdef=edzed.UNDEF)
             if kind == 'func':
@@ -240,7 +246,7 @@ def build_and_run(case, ctx):
         start = 0 if (case['sender'] == 'src' and not case['initdef']) else 1
         for idx in case['values'][start:]:
             v = pool[idx]
-            if isinstance(feeder, edzed.Counter) or isinstance(feeder, edzed.Input):
+            if isinstance(feeder, (edzed.Counter, edzed.Input, edzed.InputExp)):
                 edzed.ExtEvent(feeder, 'put').send(copy.copy(v))
             else:
                 edzed.ExtEvent(feeder, 'set').send(copy.copy(v))
